@@ -383,7 +383,7 @@ func runC16(r *engine.Run) {
 	// the many-arguments history (earlier devices return after 1, 63, i/2 and i further devices)
 	{
 		n := manyHistoryN(r) / 4
-		r.Rule += fmt.Sprintf(" Many-devices history: %d devices with their own keys through one handler in one sequence (returning to earlier devices), each answer judged like every other.", n)
+		r.Rule += fmt.Sprintf(" Many-devices history: %d devices with their own keys through one handler in one sequence (returning to earlier devices, which then send a lower nonce than before), each answer judged like every other.", n)
 		r.Rule += collidingRule()
 		mkDev := func(i int) C16Case {
 			k := baseCase()
@@ -410,11 +410,16 @@ func runC16(r *engine.Run) {
 		r.PartWorkers("many-devices", []string{fmt.Sprintf("devices:%d", n), "kind{join 1.0, join 1.1, rejoin 0}", "MIC{correct, bit flipped (every 16th request)}"}, 1, 1, func(c *engine.Case) {
 			h := C16Handler(devs, nil)
 			step := 0
+			visits := map[int]int{}
 			ok := manyHistoryRun(n, func(i int) bool {
 				if i >= collisionKeyBase {
 					i = n + i - collisionKeyBase
 				}
 				k := devs[i]
+				// a device that comes back sends another nonce: 1.0 devices draw it at random, so the
+				// sequence one device sends goes down as well as up (here: down by 1, 2, 3 .. per visit)
+				k.Nonce -= uint16(visits[i] * (visits[i] + 1) / 2)
+				visits[i]++
 				step++
 				if step%16 == 0 && k.Kind == 0 {
 					k.MICFlip = step % 32
